@@ -25,6 +25,7 @@ func VerifFaceConsts() map[string]int {
 	m := map[string]int{
 		"MaxNDNPacketSize":       defn.MaxNDNPacketSize,
 		"congestionMarkOverhead": congestionMarkOverhead,
+		"maxFragCount":           maxFragCount,
 	}
 	for _, frag := range []bool{false, true} {
 		for _, ifi := range []bool{false, true} {
